@@ -6,7 +6,7 @@
 From Coq Require Import String.
 From Coq Require Import ZArith List Bool.
 From IMB Require Import Gen.GenConsts Gen.GenGlobals Gen.GenStrerror Mgr.Ring Mgr.Errno Mgr.Globals
-                        Proofs.GlobalsProofs.
+                        Proofs.GlobalsProofs Proofs.ErrnoProofs.
 Import ListNotations.
 Local Open Scope Z_scope.
 
@@ -62,6 +62,13 @@ Theorem get_errno_characterisation : forall cell_of cpu feat_of sess ring0 l w i
   errno (m_ring (mgrs w1 i)) <> 0 \/ g_errno (glob w1) (cell_of i) = g_errno (glob w2) (cell_of i).
 Proof. exact (get_errno_characterisation_thm SZ NJ MAXB). Qed.
 Print Assumptions get_errno_characterisation.
+
+(* the accessor functions of today's source (translated on every run) are the modelled ones *)
+Theorem errno_accessors_match_source : forall b e m,
+  src_get_errno b (e_field m) (e_glob m) = imb_get_errno b m /\
+  src_set_errno b e (e_field m) (e_glob m) = (e_field (imb_set_errno b e m), e_glob (imb_set_errno b e m)).
+Proof. intros b e m; split; [exact (src_get_errno_is_model b m) | exact (src_set_errno_is_model b e m)]. Qed.
+Print Assumptions errno_accessors_match_source.
 
 (* read right after the manager's own (mirror-writing) call: no influence *)
 Theorem get_errno_after_own_call : forall cell_of cpu feat_of sess ring0 l w i o,
